@@ -150,10 +150,13 @@ def coq_make(targets=(), timeout=3000, jobs=16):
 
 
 def vo_ok(vfile):
-    """True iff the .vo of coq/<vfile> exists and is newer than its source."""
-    v = os.path.join(COQ, vfile)
-    vo = v[:-2] + ".vo"
-    return os.path.exists(vo) and os.path.getmtime(vo) >= os.path.getmtime(v)
+    """True iff the .vo of coq/<vfile> is up to date w.r.t. its source and all its dependencies
+    (make -q: nothing would be rebuilt)."""
+    vo = vfile[:-2] + ".vo"
+    if not os.path.exists(os.path.join(COQ, vo)):
+        return False
+    p = subprocess.run(["make", "-q", vo], cwd=COQ, capture_output=True, text=True)
+    return p.returncode == 0
 
 
 def coq_deps(vfile):
